@@ -1238,6 +1238,7 @@ func runC16(p *Prog, r *Report) {
 	noFsReadRule(p, r, "C16.R6")
 	flagsNotRewrittenRule(p, r, "C16.R7")
 	tagsOpaqueRule(p, r, "C16.R8")
+	argsUnmodifiedRule(p, r, "C16.R9")
 }
 
 func c16R1(p *Prog, r *Report) {
